@@ -21,6 +21,8 @@ mode real: the case carries "snaps": `verif_snapshot()` of the REAL tree after e
            entries: contents-mismatch-on-real-state).
 mode trace: after the last op, per haystack the `trace(haystack)` tree {regex, count, matched, children, values(sorted)}
            (the harness parses the `Debug` rendering of the real `Trace`).
+mode prim : the ip / date / time / week-day primitives of the router (Model/Cidr.lean, Model/TimeWindow.lean) against
+           the real `RouteIp`, `RouteDateTime`, `RouteTime`, `RouteWeekday` (package W1d, see `handlePrim`).
 mode twin / router (C12): no model observation (tag twin-only), see harness/src/bin/c12.rs.
 mode rx  : per pattern {p, ok, m[per haystack], pre[[k, ok, m[..]] per scanner-boundary k]} – validates
            Model/Regex (+ render, + the scanner) against the real crate.
@@ -28,6 +30,8 @@ mode cp  : {"a","b","n"} -> [common_prefix_char_size(a,b), get_prefix_with_char_
 -/
 import Drivers.Common
 import RioModel.Model.Tree
+import RioModel.Model.Cidr
+import RioModel.Model.TimeWindow
 open Lean Rio.Scan Rio.Regex Rio.Tree
 
 namespace C08
@@ -249,8 +253,74 @@ def obsRx (ic : Bool) (hay : List (List Char)) (p : List Char) : Json :=
       let q := p.take k
       Json.arr #[toJson k, toJson (E.nodeOk ic q), Json.arr (hay.map fun s => toJson (E.pre ic q s)).toArray]).toArray)]
 
+/-! ### mode prim (W1d) -/
+
+def jOptNat : Option Nat → Json
+  | some n => toJson n
+  | none => Json.null
+
+def jOptBool : Option Bool → Json
+  | some b => toJson b
+  | none => Json.null
+
+def ordStr : Ordering → String
+  | .lt => "lt" | .eq => "eq" | .gt => "gt"
+
+def optStr (j : Json) (k : String) : Except String (Option String) := Drv.optStr? j k
+
+def strList (j : Json) (k : String) : Except String (List String) := do
+  (← Drv.arr? j k).toList.mapM fun x => (fromJson? x : Except String String)
+
+def handlePrim (j : Json) : Except String Json := do
+  let kind ← Drv.str? j "kind"
+  if kind == "ip" then
+    let cidr ← Drv.str? j "cidr"
+    let neg ← Drv.bool? j "neg"
+    let addr ← Drv.str? j "addr"
+    let c := Rio.Cidr.parseAnyCidr cidr
+    let a := Rio.Cidr.parseAddr addr.toList
+    let m : Option Bool := match c, a with
+      | some c, some a => some ((if neg then Rio.Cidr.RouteIp.notInRange c else Rio.Cidr.RouteIp.inRange c).matchIp a)
+      | _, _ => none
+    -- `Rule::route_ips` on the one-element list
+    let viaRule := (Rio.Cidr.routeIps (some [⟨neg, cidr⟩])).isSome
+    return Json.mkObj [("m", Json.mkObj [("cidr_ok", toJson c.isSome), ("addr_ok", toJson a.isSome),
+      ("match", jOptBool m), ("route_ips_some", toJson viaRule)])]
+  else if kind == "dt" || kind == "time" then
+    let start ← optStr j "start"
+    let stop ← optStr j "end"
+    let atS ← Drv.str? j "at"
+    let w := if kind == "dt" then Rio.TimeWindow.dateTimeFromRange start stop
+             else Rio.TimeWindow.timeFromRange start stop
+    let t := Rio.TimeWindow.parseDateTime atS
+    let m := t.map fun t => if kind == "dt" then Rio.TimeWindow.matchDateTime w t else Rio.TimeWindow.matchTime w t
+    return Json.mkObj [("m", Json.mkObj [("start", jOptNat w.start), ("end", jOptNat w.stop), ("at", jOptNat t),
+      ("match", jOptBool m)])]
+  else if kind == "wd" then
+    let days ← strList j "days"
+    let atS ← Drv.str? j "at"
+    let r := Rio.TimeWindow.RouteWeekday.fromWeekdays days
+    let t := Rio.TimeWindow.parseDateTime atS
+    let m : Option Bool := match r, t with
+      | some r, some t => some (r.matchDateTime t)
+      | _, _ => none
+    return Json.mkObj [("m", Json.mkObj [
+      ("days", match r with
+        | some r => Json.arr (r.days.map fun d => toJson d.num).toArray
+        | none => Json.null),
+      ("weekday", jOptNat (t.map Rio.TimeWindow.weekdayNum)), ("match", jOptBool m)])]
+  else if kind == "wdcmp" then
+    let a ← strList j "a"
+    let b ← strList j "b"
+    match Rio.TimeWindow.RouteWeekday.fromWeekdays a, Rio.TimeWindow.RouteWeekday.fromWeekdays b with
+    | some ra, some rb =>
+      return Json.mkObj [("m", Json.mkObj [("cmp", toJson (ordStr (ra.cmp rb))), ("eq", toJson (decide (ra = rb)))])]
+    | _, _ => return Json.mkObj [("m", Json.mkObj [("cmp", Json.null), ("eq", Json.null)])]
+  else throw "prim kind"
+
 def handle (j : Json) : Except String Json := do
   let mode ← Drv.str? j "mode"
+  if mode == "prim" then return ← handlePrim j
   if mode == "cp" then
     let a := (← Drv.str? j "a").toList
     let b := (← Drv.str? j "b").toList
